@@ -12,7 +12,8 @@ def target_vector(variant, enabled=True):
     elif kind == "number":
         fmt = "%.2f" if variant == "number-printf" else "%.6m"
         # element A states its range, element B relies on the definition defaults
-        v["elements"] = [dict(attr="a", name="A", default=1.5, format=fmt, min=-400, max=400, step=1), dict(attr="b", name="B", default=2.25, format=fmt)]
+        # element A states its range; element B's limits are floats that Python prints with an exponent
+        v["elements"] = [dict(attr="a", name="A", default=1.5, format=fmt, min=-400, max=400, step=1), dict(attr="b", name="B", default=2.25, format=fmt, min=-1e16, max=1e16, step=0.00001)]
     elif kind == "switch":
         v["rule"] = variant.split("-")[1]
         v["elements"] = [dict(attr="a", name="A", default="On"), dict(attr="b", name="B"), dict(attr="c", name="C")]
@@ -41,10 +42,14 @@ def device_spec(name, variant, vec_enabled=True, grp_enabled=True, depth=1, ngro
     return dict(name=name, groups=groups, depth=depth)
 
 
-def deployment(variant, vec_enabled=True, grp_enabled=True, depth=1, ndev=1, ngroups=2, related=False):
+def deployment(variant, vec_enabled=True, grp_enabled=True, depth=1, ndev=1, ngroups=2, related=False, nolimits=False, read_refresh=False):
     """device 0 is the device under test; further devices have the SAME vector and element names.
     related=True: device 1's class DERIVES from device 0's class (instantiated after it) and adds a group."""
     specs = [device_spec("DEV0", variant, vec_enabled, grp_enabled, depth, ngroups)]
+    if nolimits:
+        for e in specs[0]["groups"][0]["vectors"][0]["elements"]:
+            for k in ("min", "max", "step"):
+                e.pop(k, None)
     for i in range(1, ndev):
         if related and i == 1:
             import copy
@@ -66,6 +71,10 @@ def family(tier):
                 for ndev in (1, 2, 3):
                     p = dict(variant=variant, vec_enabled=ve, grp_enabled=ge, depth=depth, ndev=ndev, ngroups=3 if depth == 3 else 2)
                     out.append(p)
+    # number element B without any limits (definition defaults), and a Read handler that refreshes element A
+    out.append(dict(variant="number-printf", vec_enabled=True, grp_enabled=True, depth=1, ndev=1, ngroups=2, nolimits=True))
+    for variant in ("number-printf", "number-sexa", "text", "switch-AnyOfMany", "light"):
+        out.append(dict(variant=variant, vec_enabled=True, grp_enabled=True, depth=2, ndev=2, ngroups=2, read_refresh=True))
     # class hierarchies shared between devices: device 1 derives from device 0's class
     for variant in ("text", "number-printf", "switch-OneOfMany", "blob"):
         for depth in (1, 2):
@@ -82,5 +91,5 @@ def family(tier):
                 depth, ndev = combos[(i + k * 2) % 9]
                 q.append(dict(variant=variant, vec_enabled=ve, grp_enabled=ge, depth=depth, ndev=ndev, ngroups=3 if depth == 3 else 2))
             i += 1
-    q += [p for p in out if p.get("related")]
+    q += [p for p in out if p.get("related") or p.get("nolimits") or p.get("read_refresh")]
     return q
